@@ -130,6 +130,9 @@ pub fn run_history(make: &dyn Fn() -> Result<SpeechGenerator, Failure>, ops: &[O
 pub struct Case {
     pub base: EngineCase,
     pub ops: Vec<Op>,
+    /// phoneme alignment on, with generated time stamps on the label lines
+    pub alignment: bool,
+    pub times: Option<Vec<Option<(f64, f64)>>>,
 }
 
 pub struct RandomHistory;
@@ -140,7 +143,7 @@ impl Prop for RandomHistory {
         "random-history".into()
     }
     fn rule(&self) -> String {
-        "engine/utterance/condition as in C01 (0..12 labels; generated voices 92 %), history of 0..40 ops over {Step(buffer fp..3fp), StepMany(n), Frames, Finish} interpreted against the reference model (one-shot waveform + cursor). Non-trivial: a Step before a Finish, or a Step past the end".into()
+        "engine/utterance/condition as in C01 (0..12 labels; generated voices 92 %; phoneme alignment on in 25 % of the cases, mostly with time-stamped lines), Engine::synthesize == a fresh generator asked for everything, history of 0..40 ops over {Step(buffer fp..3fp), StepMany(n), Frames, Finish} interpreted against the reference model (one-shot waveform + cursor). Non-trivial: a Step before a Finish, or a Step past the end".into()
     }
     fn tape_len(&self, _: Tier) -> usize {
         12000
@@ -171,12 +174,30 @@ impl Prop for RandomHistory {
         if t.chance(0.6) {
             ops.push(Op::Finish);
         }
-        Case { base, ops }
+        let alignment = t.chance(0.25);
+        let times = if alignment && t.chance(0.8) && !base.labels.is_empty() {
+            let (rate0, fp0, nstate) = match base.voice.base_spec() {
+                Some(v) => (v.sampling_frequency, v.frame_period, v.num_states),
+                None => (48000, 240, 5),
+            };
+            let rate = base.cond.rate.unwrap_or(rate0);
+            let fp = base.cond.fperiod.unwrap_or(fp0);
+            let frame_100ns = fp as f64 * 1e7 / rate as f64;
+            let typical = nstate as f64 * t.log_uniform(0.5, 4.0);
+            Some(super::c09::gen_text_times(t, base.labels.len(), frame_100ns, typical, 5.9e9))
+        } else {
+            None
+        };
+        Case { base, ops, alignment, times }
     }
     fn check(&self, c: &Case) -> Result<Report, Failure> {
         let (mut engine, _info) = build_engine(&c.base.voice)?;
         c.base.cond.apply(&mut engine);
-        let lines = c.base.labels.clone();
+        engine.condition.set_phoneme_alignment_flag(c.alignment);
+        let lines = match &c.times {
+            Some(t) => super::c09::timed_lines(&c.base.labels, t),
+            None => c.base.labels.clone(),
+        };
         // cheap pre-check of the size through the generator (no vocoding)
         let frames = match catch(|| engine.generator(lines.as_slice()).map(|g| crate::engine_util::trajectories(&g).lf0.len())) {
             Ok(Ok(n)) => n,
@@ -191,7 +212,21 @@ impl Prop for RandomHistory {
         };
         let mut rep = Report::new();
         run_history(&make, &c.ops, &mut rep)?;
+        // "one-shot synthesis" is Engine::synthesize: it must be what a fresh generator of the same
+        // engine and labels produces when asked for everything
+        let oneshot = match catch(|| engine.synthesize(lines.as_slice())) {
+            Ok(Ok(w)) => w,
+            Ok(Err(e)) => fail!("synthesize-error", "synthesize failed where the generator succeeds: {}", e),
+            Err(p) => fail!(p.signature(), "synthesize panicked: {}", p.msg),
+        };
+        let all = make()?.generate_all();
+        ensure!(oneshot.len() == all.len(), "oneshot-differs", "Engine::synthesize returns {} samples, a fresh generator asked for everything {} (alignment {})", oneshot.len(), all.len(), c.alignment);
+        if let Some(i) = (0..all.len()).find(|&i| oneshot[i].to_bits() != all[i].to_bits() && !(oneshot[i].is_nan() && all[i].is_nan())) {
+            fail!("oneshot-differs", "Engine::synthesize and a fresh generator asked for everything differ at sample {}: {:e} vs {:e}", i, oneshot[i], all[i]);
+        }
         rep.class(c.base.voice.class());
+        rep.class_if(c.alignment, "alignment:on");
+        rep.class_if(c.times.is_some(), "alignment:with-times");
         Ok(rep)
     }
 }
